@@ -118,10 +118,6 @@ func H_close_race() {
 	capacity := symx.Choose("cap", 2)
 	c := newChan(capacity)
 	v := symx.Int("v")
-	// recorded finding: Send tests c.closed and then performs a raw chan send; a concurrent
-	// Close between the two (or while the sender is parked) makes the send panic
-	symx.KnownPanic("C09-send-on-closed-channel-panic", "send on closed channel@", true)
-	symx.KnownPanic("C09-closed-flag-data-race", "data-race@", true)
 	var wg sync.WaitGroup
 	sent := false
 	wg.Add(2)
@@ -196,4 +192,53 @@ func N_close_parked() {
 	for i := 0; i < 2000; i++ {
 		runtimeGosched()
 	}
+}
+
+// H_close_accounting: two senders, one receive, then close, then drain: every send that reported
+// success is received exactly once and every send that reported failure is never received,
+// whichever sender the receive served and wherever the close lands.
+func H_close_accounting() {
+	capacity := symx.Choose("cap", 2)
+	c := newChan(capacity)
+	v0, v1 := symx.Int("v0"), symx.Int("v1")
+	symx.Assume(v0 != v1)
+	var wg sync.WaitGroup
+	var sent [2]bool
+	vals := [2]int{v0, v1}
+	wg.Add(2)
+	for t := 0; t < 2; t++ {
+		t := t
+		go func() {
+			sent[t] = c.Send(data.NewIntValue(vals[t]))
+			wg.Done()
+		}()
+	}
+	var got []int
+	if x, ok := c.Receive(); ok {
+		got = append(got, intOf(x))
+	}
+	c.Close()
+	wg.Wait()
+	for k := 0; k < 3; k++ {
+		x, ok := c.Receive()
+		if !ok {
+			break
+		}
+		got = append(got, intOf(x))
+	}
+	for t := 0; t < 2; t++ {
+		n := 0
+		for _, g := range got {
+			if g == vals[t] {
+				n++
+			}
+		}
+		if sent[t] {
+			symx.Assert(n == 1, "a send that reported success is received exactly once")
+		} else {
+			symx.Assert(n == 0, "a send that reported failure is never received")
+		}
+	}
+	symx.Assert(len(got) <= 2, "nothing is received that was not sent")
+	symx.Reach("end")
 }
